@@ -4,7 +4,12 @@ open Closure C16
 
 /-! # C17 model: `pds`, `pds_path`, `pds_t`, `pds_t_path` (`pywhy_graphs/algorithms/pag.py`)
 
-The model mirrors the code *after* the repair `fix: pds queues (this_node, next_node)`.
+`pds` mirrors the code literally, including its defect (known finding
+`C17-pds-queues-prev-next`): the successor edge is built as `(prev_node, next_node)` instead of
+`(this_node, next_node)`.  The one-token repair cannot be committed as a `fix:` because two tests of
+the suite (`test_pds_path`, `test_pdst`) assert the defective output.  `pdsW` is the same search with
+`(this_node, next_node)` – what the code is meant to do; all positive theorems are about `pdsW`, the
+literal model gets an exact characterisation and counterexample theorems.
 `max_path_length` is `None` (the property's quantifier): the level counter never reaches 1000.
 
 Abstractions (recorded, validated by the correspondence run):
@@ -42,24 +47,32 @@ def candidate (G : MG) (x : Nat) (y : Option Nat) (prev this next : Nat) : Bool 
   -- `is_def_collider or is_triangle`
   (decide (Collider G prev this next) || decide (next ∈ nbrs G prev))
 
-/-- body of the `while` loop for one popped edge: the queued successors `(this_node, next_node)` -/
-def expand (G : MG) (x : Nat) (y : Option Nat) : St → List St
+/-- body of the `while` loop for one popped edge: the queued successors.
+    `carry = false`: `next_edge = (prev_node, next_node)` (the code as it is);
+    `carry = true`: `next_edge = (this_node, next_node)` (the intended search). -/
+def expand (carry : Bool) (G : MG) (x : Nat) (y : Option Nat) : St → List St
   | (prev, this) =>
     if !reachesY G y this then []
-    else ((nbrs G this).filter (candidate G x y prev this)).map fun next => (this, next)
+    else ((nbrs G this).filter (candidate G x y prev this)).map fun next =>
+      (if carry then this else prev, next)
 
 /-- the edges queued before the loop -/
 def initEdges (G : MG) (x : Nat) (y : Option Nat) : List St :=
   ((nbrs G x).filter fun v => !(some v == y) && reachesY G y v).map fun v => (x, v)
 
-/-- `pds(graph, node_x, node_y)`, `max_path_length=None` -/
-def pds (G : MG) (x : Nat) (y : Option Nat) : List Nat :=
+/-- the search of `pds(graph, node_x, node_y)`, `max_path_length=None` -/
+def pdsGen (carry : Bool) (G : MG) (x : Nat) (y : Option Nat) : List Nat :=
   if !reachesY G y x then []
   else
-    let reach := closure (states G) (expand G x y) (initEdges G x y)
+    let reach := closure (states G) (expand carry G x y) (initEdges G x y)
     -- `dsep.add(node_v)` for every queued neighbour, `dsep.add(this_node)` for every popped edge that
     -- passes the has_path test
     (initEdges G x y).map (·.2) ++ (reach.filter fun st => reachesY G y st.2).map (·.2)
+
+/-- `pds(graph, node_x, node_y)` as the code is -/
+def pds (G : MG) (x : Nat) (y : Option Nat) : List Nat := pdsGen false G x y
+/-- the intended edge-state search (successor edge `(this_node, next_node)`) -/
+def pdsW (G : MG) (x : Nat) (y : Option Nat) : List Nat := pdsGen true G x y
 
 /-- node set of the biconnected component containing the edge x–y (see the header) -/
 def bicomp (G : MG) (x y : Nat) : List Nat :=
